@@ -32,8 +32,8 @@ def explore(ctx):
     else:
         combos += two
         three = [(a, b, c) for a in names for b in names for c in names]
-        combos += ctx.rng.sample(three, 300)
-        nsmall, nlarge = 10, 1500
+        combos += ctx.rng.sample(three, 40)
+        nsmall, nlarge = 10, 400
     cases = []
     dist = {}
     for combo in combos:
